@@ -13,3 +13,49 @@ package sqlc
 //@   ensures [then-delete-keys] ret(exec, 1) == nil ==> calls(cc.DelCacheCtx) == 1 && arg(DelCacheCtx, 1) == ctx && arg(DelCacheCtx, 2) == keys && before(exec, DelCacheCtx)
 //@   ensures [delete-error-reported] ret(exec, 1) == nil && ret(DelCacheCtx) != nil ==> result1 == ret(DelCacheCtx) && result0 == nil
 //@   ensures [result] ret(exec, 1) == nil && ret(DelCacheCtx) == nil ==> result0 == ret(exec, 0) && result1 == nil
+
+// Reads through the cache: the row is taken from the cache under its key, the database being asked - on this
+// connection, into the caller's destination - only by the cache's miss path.
+//@ func (CachedConn).QueryRowCtx
+//@   prop C06
+//@   ensures [through-the-cache-under-the-key] calls(cc.cache.TakeCtx) == 1 && arg(cc.cache.TakeCtx, 0) == ctx && arg(cc.cache.TakeCtx, 1) == v && arg(cc.cache.TakeCtx, 2) == key && result == ret(TakeCtx)
+//@ func (CachedConn).QueryRowCtx$1
+//@   prop C06
+//@   ensures [db-query-on-this-connection] calls(query, ctx, cc.db, val) == 1 && result == ret(query)
+// Read by a unique index: the index key caches the PRIMARY key; on an index miss the row found by the index query
+// is cached under its primary key for longer (+5 s) than the index entry, so that an index entry never outlives
+// the row entry it points to; on an index hit the row is taken through the cache under its primary key.
+//@ func (CachedConn).QueryRowIndexCtx
+//@   prop C06
+//@   opaque TakeWithExpireCtx, TakeCtx
+//@   havoc-on TakeWithExpireCtx: cells(bool)
+//@   ensures [index-entry-holds-primary-key] calls(cc.cache.TakeWithExpireCtx) == 1 && arg(cc.cache.TakeWithExpireCtx, 0) == ctx && arg(cc.cache.TakeWithExpireCtx, 2) == key
+//@   ensures [index-error] ret(TakeWithExpireCtx) != nil ==> result == ret(TakeWithExpireCtx) && calls(TakeCtx) == 0
+//@   ensures [row-by-primary-key-through-the-cache] ret(TakeWithExpireCtx) == nil && !local(found) ==> calls(cc.cache.TakeCtx) == 1 && arg(cc.cache.TakeCtx, 1) == v && arg(cc.cache.TakeCtx, 2) == ret(keyer) && calls(keyer, local(primaryKey)) == 1 && result == ret(TakeCtx)
+//@   ensures [row-already-loaded-by-index-query] ret(TakeWithExpireCtx) == nil && local(found) ==> result == nil && calls(TakeCtx) == 0
+//@ func (CachedConn).QueryRowIndexCtx$1
+//@   prop C06
+//@   opaque SetWithExpireCtx
+//@   ensures [index-query-on-this-connection] calls(indexQuery, ctx, cc.db, v) == 1
+//@   ensures [index-miss-in-db] ret(indexQuery, 1) != nil ==> err == ret(indexQuery, 1) && calls(SetWithExpireCtx) == 0 && found == old(found)
+//@   ensures [row-cached-under-primary-key-with-safety-gap] ret(indexQuery, 1) == nil ==> found && primaryKey == ret(indexQuery, 0) && calls(keyer, ret(indexQuery, 0)) == 1 && calls(cc.cache.SetWithExpireCtx) == 1 && arg(cc.cache.SetWithExpireCtx, 1) == ret(keyer) && arg(cc.cache.SetWithExpireCtx, 2) == v && arg(cc.cache.SetWithExpireCtx, 3) == expire + 5000000000 && err == ret(SetWithExpireCtx)
+//@ func (CachedConn).QueryRowIndexCtx$2
+//@   prop C06
+//@   ensures [primary-query-on-this-connection] calls(primaryQuery, ctx, cc.db, v, primaryKey) == 1 && result == ret(primaryQuery)
+// The explicit cache operations and the uncached forms are the cache's / the connection's own.
+//@ func (CachedConn).DelCacheCtx
+//@   prop C06
+//@   ensures [deletes-those-keys] calls(cc.cache.DelCtx) == 1 && arg(cc.cache.DelCtx, 0) == ctx && arg(cc.cache.DelCtx, 1) == keys && result == ret(DelCtx)
+//@ func (CachedConn).GetCacheCtx
+//@   prop C06
+//@   ensures calls(cc.cache.GetCtx, ctx, key, v) == 1 && result == ret(GetCtx)
+//@ func (CachedConn).SetCacheCtx
+//@   prop C06
+//@   ensures calls(cc.cache.SetCtx, ctx, key, val) == 1 && result == ret(SetCtx)
+//@ func (CachedConn).Exec
+//@   prop C06
+//@   opaque ExecCtx
+//@   ensures [same-keys] calls(cc.ExecCtx) == 1 && arg(cc.ExecCtx, 3) == keys && result0 == ret(ExecCtx, 0) && result1 == ret(ExecCtx, 1)
+//@ func (CachedConn).Exec$1
+//@   prop C06
+//@   ensures calls(exec, conn) == 1 && result0 == ret(exec, 0) && result1 == ret(exec, 1)
